@@ -28,11 +28,11 @@ def sort_names(ll):
 
         # sort list by id first
         if all([re.search(id_pattern, entry) for entry in ll]):
-            ll.sort(key=lambda x: int(re.findall(id_pattern, x)[0]))
+            ll.sort(key=lambda x: [int(v) for v in re.findall(id_pattern, x)])
             sorted = True
         # then by replikum
         if all([re.search(r_pattern, entry) for entry in ll]):
-            ll.sort(key=lambda x: int(re.findall(r_pattern, x)[0]))
+            ll.sort(key=lambda x: [int(v) for v in re.findall(r_pattern, x)])
             sorted = True
         # as the rearrangements by one key let the other key untouched, the list is sorted now
 
